@@ -433,7 +433,7 @@ class UnitCodec:
     codec "gzip": one gzip stream, Z_SYNC_FLUSH after every unit; a unit with E = 0 is an empty
     stored block; M ends the member (Z_FINISH + trailer) - the next unit starts a new member;
     X is a reserved deflate block type (the decoder raises).  codec "zstd": FLUSH_BLOCK per unit,
-    E = 0 / M end the frame.  codec "identity": the unit is its own output."""
+    E = 0 is an empty raw block (an empty frame when no frame is open), M ends the frame.  codec "identity": the unit is its own output."""
 
     def __init__(self, codec: str, U: int, rng: Any) -> None:
         self.codec = codec
@@ -476,7 +476,10 @@ class UnitCodec:
                 self.plain += d
             return self._c.compress(d) + self._c.flush(zlib.Z_SYNC_FLUSH)
         if self.codec == "zstd":
+            started = self._c is not None
             self._open()
+            if u == 0 and started:
+                return b"\x00\x00\x00"          # an empty raw block inside the running frame
             if u in (0, 100):
                 out = self._c.flush(zstd.ZstdCompressor.FLUSH_FRAME)
                 self._c = None
